@@ -10,6 +10,44 @@ pub open spec fn ev_is_zero(e: EV) -> bool {
     match e { EV::Num(x) => x == 0real, EV::Com(m) => all_zero(m) }
 }
 
+// ---- ordinary arithmetic with commodity typing (None = ill-typed / undefined) ----
+pub open spec fn ev_add(x: EV, y: EV) -> Option<EV> {
+    match (x, y) {
+        (EV::Num(a), EV::Num(b)) => Some(EV::Num(a + b)),
+        (EV::Com(a), EV::Com(b)) => Some(EV::Com(madd(a, b))),   // same commodity combines, different ones are kept apart
+        _ => None,                                               // number + amount is ill-typed
+    }
+}
+pub open spec fn ev_sub(x: EV, y: EV) -> Option<EV> {
+    match (x, y) {
+        (EV::Num(a), EV::Num(b)) => Some(EV::Num(a - b)),
+        (EV::Com(a), EV::Com(b)) => Some(EV::Com(msub(a, b))),
+        _ => None,
+    }
+}
+pub open spec fn ev_mul(x: EV, y: EV) -> Option<EV> {
+    match (x, y) {
+        (EV::Num(a), EV::Num(b)) => Some(EV::Num(a * b)),
+        (EV::Com(a), EV::Num(k)) => Some(EV::Com(mscale(a, k))),
+        (EV::Num(k), EV::Com(a)) => Some(EV::Com(mscale(a, k))),
+        (EV::Com(_), EV::Com(_)) => None,                        // amount * amount is ill-typed
+    }
+}
+pub open spec fn ev_div(x: EV, y: EV) -> Option<EV> {
+    if ev_is_zero(y) { None }                                    // division by zero
+    else {
+        match (x, y) {
+            (EV::Num(a), EV::Num(b)) => Some(EV::Num(a / b)),
+            (EV::Com(a), EV::Num(k)) => Some(EV::Com(mdiv(a, k))),
+            (EV::Num(a), EV::Com(b)) => if b.dom().len() == 1 { Some(EV::Com(Map::empty().insert(b.dom().choose(), a / b[b.dom().choose()]))) } else { None },
+            (EV::Com(_), EV::Com(_)) => None,
+        }
+    }
+}
+pub open spec fn ev_neg(x: EV) -> EV {
+    match x { EV::Num(a) => EV::Num(-a), EV::Com(m) => EV::Com(mneg(m)) }
+}
+
 // a literal: no commodity => number, otherwise one-commodity amount of the (alias-resolved) commodity
 pub open spec fn lit_sem(value: real, commodity: Option<Commodity>) -> EV {
     match commodity { None => EV::Num(value), Some(c) => EV::Com(Map::empty().insert(c, value)) }
